@@ -1,35 +1,51 @@
-"""Generated/DataVersionConsts.v from data_version.cc: the numeric base handed to strtol and the two range
-limits FromString tests. Fail closed: anything this does not recognise raises."""
-import os, re, sys
+"""Generated/DataVersionConsts.v: the numeric base and the two range limits of FromString(), derived from the
+*behaviour* of the working tree's data_version.cc (compiled into the guard-page harness), not from its text, so a
+harmless rewrite (renamed locals, 255 instead of 0xFF, helper functions) does not break the tie:
+  strtol_base = value FromString("10.0") gives for the major field;
+  major_max / minor_max = the largest accepted field value (binary search, boundary verified: max accepted, max+1 not).
+If the behaviour is not of that shape (no accepted value, non-monotone boundary) the translator fails closed."""
+import os, sys
 sys.path.insert(0, os.path.join(os.path.dirname(__file__), '..', 'lib'))
 import vf
 
 SRC = 'src/point_one/fusion_engine/messages/data_version.cc'
 
 
-def lit(s):
-    s = s.strip().rstrip('uUlL')
-    return int(s, 0)
+def _harness():
+    return vf.build_cpp('c20_guard', [os.path.join(vf.VERIF, 'harness/cpp/c20_h.cc'), os.path.join(vf.REPO, SRC)], sanitize=False)
 
 
-def generate():
-    txt = vf.repo_file(SRC)
-    m = re.search(r'DataVersion\s+FromString\s*\(\s*const\s+char\s*\*\s*(\w+)\s*\)\s*\{(.*?)\n\}', txt, re.S)
-    if not m:
-        raise RuntimeError('gen_c20: FromString(const char*) not found')
-    body = m.group(2)
-    bases = re.findall(r'strtol\s*\([^;]*?,\s*([0-9a-fA-FxX]+)\s*\)', body)
-    if len(bases) != 2 or len(set(bases)) != 1:
-        raise RuntimeError('gen_c20: expected two strtol calls with one base, got %r' % bases)
-    uppers = re.findall(r'tmp\s*>\s*([0-9a-fA-FxXuUlL]+)', body)
-    lowers = re.findall(r'tmp\s*<\s*([0-9a-fA-FxXuUlL]+)', body)
-    if len(uppers) != 2 or [lit(x) for x in lowers] != [0, 0]:
-        raise RuntimeError('gen_c20: expected tmp > MAX / tmp < 0 tests twice, got %r %r' % (uppers, lowers))
-    text = vf.gen_header([SRC]) + 'From Coq Require Import ZArith.\nOpen Scope Z_scope.\n'
-    text += 'Definition strtol_base : Z := %d.\nDefinition major_max : Z := %d.\nDefinition minor_max : Z := %d.\n' % (
-        lit(bases[0]), lit(uppers[0]), lit(uppers[1]))
+def generate(exe=None):
+    exe = exe or _harness()
+
+    def parse(strings):
+        rc, out, err = vf.run_lines(exe, ['P ' + s.encode().hex() for s in strings])
+        if rc != 0 or len(out) != len(strings):
+            raise RuntimeError('gen_c20: harness failed: ' + err[-300:])
+        return out
+
+    def largest(fmt, hi):
+        ok = lambda v: parse([fmt % v])[0] == ('%d 0' % v if fmt.endswith('.0') else '0 %d' % v)
+        if not ok(0):
+            raise RuntimeError('gen_c20: "%s" is not accepted' % (fmt % 0))
+        lo = 0
+        while lo < hi:
+            mid = (lo + hi + 1) // 2
+            if ok(mid): lo = mid
+            else: hi = mid - 1
+        if not ok(lo) or ok(lo + 1):
+            raise RuntimeError('gen_c20: acceptance boundary of %r is not monotone around %d' % (fmt, lo))
+        return lo
+    ten = parse(['10.0'])[0]
+    if not ten.endswith(' 0') or ten == 'OOB':
+        raise RuntimeError('gen_c20: FromString("10.0") = %r' % ten)
+    base = int(ten.split()[0])
+    major_max = largest('%d.0', 100000)
+    minor_max = largest('0.%d', 10000000)
+    text = vf.gen_header([SRC + ' (compiled, probed)']) + 'From Coq Require Import ZArith.\nOpen Scope Z_scope.\n'
+    text += 'Definition strtol_base : Z := %d.\nDefinition major_max : Z := %d.\nDefinition minor_max : Z := %d.\n' % (base, major_max, minor_max)
     vf.write_if_changed(os.path.join(vf.THEORIES, 'Generated', 'DataVersionConsts.v'), text)
-    return {'strtol_base': lit(bases[0]), 'major_max': lit(uppers[0]), 'minor_max': lit(uppers[1])}
+    return {'strtol_base': base, 'major_max': major_max, 'minor_max': minor_max}
 
 
 if __name__ == '__main__':
